@@ -186,6 +186,42 @@ def _tr_block(stmts, call, env):
             continue
         if isinstance(st, ast.Return):
             return tr_expr(st.value, call, env)
+        if (isinstance(st, ast.Assign) and len(st.targets) == 1 and isinstance(st.targets[0], ast.Tuple) and isinstance(st.value, ast.Tuple)
+                and len(st.targets[0].elts) == len(st.value.elts) and all(isinstance(t, ast.Name) for t in st.targets[0].elts)):
+            vals = [tr_expr(v, call, env) for v in st.value.elts]
+            for t, v in zip(st.targets[0].elts, vals):
+                env[t.id] = v
+            continue
+        if isinstance(st, ast.If):
+            # both branches are translated; a condition the translator cannot read (a regular-expression match, a look-up) is a free
+            # Boolean, names bound by walrus expressions in it are unconstrained strings - a sound over-approximation for the VCs
+            for ne in ast.walk(st.test):
+                if isinstance(ne, ast.NamedExpr) and isinstance(ne.target, ast.Name):
+                    env[ne.target.id] = call_opaque(call, ne.value)
+            cond = tr_cond(st.test, call, env)
+            if cond is None:
+                call.approximated.append("condition: " + ast.unparse(st.test)[:50])
+                cond = z3.Bool(f"cond{call.i}_{len(call.approximated)}")
+            env_t, env_e = dict(env), dict(env)
+            r_t = _tr_block(st.body, call, env_t)
+            r_e = _tr_block(st.orelse, call, env_e)
+            for k in set(env_t) | set(env_e):
+                vt, ve = env_t.get(k, env.get(k)), env_e.get(k, env.get(k))
+                if vt is ve or ve is None:
+                    env[k] = vt
+                elif vt is None:
+                    env[k] = ve
+                elif z3.is_expr(vt) and z3.is_expr(ve):
+                    env[k] = z3.If(cond, vt, ve)
+                else:
+                    env[k] = vt
+            if r_t is None and r_e is None:
+                continue
+            rest = _tr_block(stmts[stmts.index(st) + 1:], call, env)
+            a, b = (r_t if r_t is not None else rest), (r_e if r_e is not None else rest)
+            if a is None or b is None:
+                raise Unencodable("a branch of an if statement ends without a return")
+            return z3.If(cond, a, b)
         if isinstance(st, ast.Expr):
             # a call made for its side effect (e.g. recording the name somewhere): it does not change what is returned by itself,
             # but state it writes may be read back - reads of engine state are unconstrained strings anyway
@@ -378,6 +414,13 @@ def real_collision(prefix="leaf"):
             _random.setstate(state)
         if got[0] == got[1]:
             return True, f"two engines asked after random.seed(12345) both returned {got[0]!r} (prefix {pfx!r})"
+        # history-dependent prefixes: a name handed out earlier is passed back as the prefix of a later request (e.g.
+        # materialized(name_prefix=leaf.name)), to the same engine and to fresh engines whose counters stand where e1's stood
+        for mk in (lambda: e1, lambda: iteration.Engine(name="e3"), lambda: sql.Engine(name="e4")):
+            first = iteration.Engine(name="e0").get_relation_name(pfx) if mk() is not e1 else names[0]
+            again = mk().get_relation_name(first)
+            if again == first or again in names:
+                return True, f"a request with the earlier name {first!r} as prefix returned {again!r} again"
         tried.append((pfx[:8], names[:2], [a, b]))
     # the encoding admits a collision through engine state that the code reads back: let real threads race for it (only reached
     # when the solver found the VC satisfiable, i.e. never on code whose names are distinct by construction)
@@ -709,18 +752,32 @@ def run_shape(shape, tier):
             return out
         from lsst.daf.relation import iteration
         m = s.model()
+        ctr = 0
         pfx = _str(m, c.prefix) or "leaf"
         name = iteration.Engine(name="p").get_relation_name(pfx)
         if name.startswith(pfx):
             name = iteration.Engine(name="p").get_relation_name("leaf")
             pfx = "leaf"
         if name.startswith(pfx):
+            # a name handed out earlier used as the prefix of a later request
+            for seed_pfx in ("leaf", "materialization", pfx):
+                first = iteration.Engine(name="p").get_relation_name(seed_pfx)
+                for k in range(3):
+                    eng = iteration.Engine(name="q")
+                    eng.relation_name_counter = k
+                    nxt = eng.get_relation_name(first)
+                    if not nxt.startswith(first):
+                        pfx, name, ctr = first, nxt, k
+                        break
+                if not name.startswith(pfx):
+                    break
+        if name.startswith(pfx):
             out["status"] = INCONCLUSIVE
             out["detail"] = f"encoding does not force the prefix (opaque: {c.approximated}); real code returned {name!r} for {pfx!r}"
             return out
         out["status"] = VIOLATION
         out["violations"] = [{"site": "prefix", "summary": f"get_relation_name({pfx!r}) returned {name!r}",
-                              "replay": {"kind": "prefix", "prefix": pfx}}]
+                              "replay": {"kind": "prefix", "prefix": pfx, "counter": ctr}}]
         return out
     raise ValueError(shape)
 
@@ -732,7 +789,9 @@ def replay(v):
         return bool(bad), f"entry points with colliding / unprefixed names: {bad[:2]}"
     if r["kind"] == "prefix":
         from lsst.daf.relation import iteration
-        name = iteration.Engine(name="p").get_relation_name(r["prefix"])
+        eng = iteration.Engine(name="p")
+        eng.relation_name_counter = r.get("counter", 0)
+        name = eng.get_relation_name(r["prefix"])
         return not name.startswith(r["prefix"]), f"get_relation_name({r['prefix']!r}) -> {name!r}"
     coll, desc = real_collision(r["prefix"])
     return coll, desc
